@@ -365,6 +365,16 @@ impl Superset for syn::ExprBinary {
         if let Some(substitutions) = self.left.is_superset(&other.left) {
             substitutions.merge(self.right.is_superset(&other.right)?)?
         } else {
+            use syn::BinOp::*;
+
+            // NOTE: Operands may be matched crosswise only if the operator is commutative
+            if !matches!(
+                self.op,
+                Add(_) | Mul(_) | BitXor(_) | BitAnd(_) | BitOr(_) | Eq(_) | Ne(_)
+            ) {
+                return None;
+            }
+
             self.left
                 .is_superset(&other.right)?
                 .merge(self.right.is_superset(&other.left)?)?
